@@ -54,5 +54,44 @@ def verify_L(prop, tier='quick'):
     return lemmas.verify(prop, tier)
 
 
+def _task(kind, prop, tier, arg=None):
+    if kind == 'T':
+        return verify_T(prop)
+    if kind == 'F':
+        return verify_F(prop)
+    if kind == 'Z':
+        return verify_Z(prop, tier)
+    if kind == 'L':
+        return verify_L(prop, tier)
+    if kind == 'S':
+        from .. import zsweep
+        cls, mode = arg
+        try:
+            return zsweep.verify_contract(zsweep.orthonormalize_contract(cls, mode), (prop,))
+        except Exception as e:
+            return [Verdict(f'sweep[{mode}]', 'Z', 'undecided', f'executor error: {type(e).__name__}: {e}', 0, f'{cls}.orthonormalize', 'ensures', 'z3')]
+    return []
+
+
+SWEEPS = {'C01': [('MPS', 'left'), ('MPS', 'right'), ('MPO', 'left'), ('MPO', 'right')], 'C02': [('MPS', 'left'), ('MPS', 'right')]}
+
+
 def deductive_all(prop, tier='quick'):
-    return verify_T(prop) + verify_Z(prop, tier) + verify_F(prop) + verify_L(prop, tier)
+    """all deductive obligations of a property; independent groups run in parallel processes"""
+    import concurrent.futures as cf, multiprocessing as mp
+    tasks = [('T', prop, tier, None), ('Z', prop, tier, None), ('F', prop, tier, None), ('L', prop, tier, None)]
+    tasks += [('S', prop, tier, a) for a in SWEEPS.get(prop, [])]
+    if len(tasks) <= 4 and prop not in ('C12', 'C13'):
+        out = []
+        for t in tasks:
+            out += _task(*t)
+        return out
+    out = []
+    with cf.ProcessPoolExecutor(max_workers=min(8, len(tasks)), mp_context=mp.get_context('fork')) as pool:
+        futs = [pool.submit(_task, *t) for t in tasks]
+        for f, t in zip(futs, tasks):
+            try:
+                out += f.result(timeout=1200)
+            except Exception as e:
+                out.append(Verdict(f'group[{t[0]}{t[3] or ""}]', t[0] if t[0] != 'S' else 'Z', 'undecided', f'worker failed: {type(e).__name__}: {e}', 0, '', 'ensures'))
+    return out
